@@ -1,11 +1,13 @@
 /* C09/C16: text-level lemmas on symbolic input. */
 #include "vf.h"
+#include <stdio.h>
+#define fprintf(...) ((void)0)   /* diagnostics to stderr: no effect on program state */
 #include "al_unity.h"
 #include "libc.h"
 #include "text_contracts.h"
 void h_filter(void) {
   const char *s; char *f;
-  { const char *nd; int n; int b; g_in = nd; g_len = n; g_bad = b; }
+  { const char *nd; int n, b, q; char qc; unsigned char bc; g_in = nd; g_len = n; g_bad = b; g_q = q; g_qc = qc; g_badc = bc; }
   int r = filter_assembly_str_fsa(s, f);
   REACH("filter returns");
 }
